@@ -74,3 +74,9 @@ Definition delete_table_ranges (t : bytes) : list (bytes * bytes) :=
   ++ [(encode_data_table_start bitmap_type t, encode_data_table_end bitmap_type t);
       (encode_data_table_start json_type t, encode_data_table_end json_type t)]
   ++ range_or_nil (get_table_meta_range bitmap_meta_type t [] None).
+
+(* RangeLimitedIterator, reverse: SeekForPrev(Max) (stepping back over Max itself when the ROpen bit is set; an
+   invalid seek falls back to the first key only if that key is <= Max), then backwards while the key is
+   >= Min (> Min with the LOpen bit): the same keys as the forward iteration, in descending order *)
+Definition range_iter_rev (rtype : N) (lo hi : bytes) (keys : list bytes) : list bytes :=
+  rev (range_iter rtype lo hi keys).
